@@ -419,3 +419,32 @@ def calls_of(group, tier):
         if name == group:
             return gen()
     raise KeyError(group)
+
+
+THREADSAFE = ("blobproperties", "bloboverlaps", "blob_moments", "sparse_is_sorted", "sparse_connectedpixels", "sparse_connectedpixels_splat",
+              "sparse_blob2Dproperties", "sparse_smooth", "sparse_localmaxlabel", "sparse_overlaps", "compress_duplicates", "coverlaps",
+              "tosparse_u16", "tosparse_u32", "tosparse_f32")
+
+
+def threadsafe_pairs(groups, kernels, per_kernel=6, tier="quick", max_bytes=4096):
+    """pairs of DIFFERENT well-formed calls of the same kernel (declared `threadsafe` in the f2py interface: the GIL is released, two
+    python threads can be inside it at once) taken from the call tables: for each kernel the first `per_kernel` small calls with
+    distinct argument content, paired (0,1), (1,2), ..."""
+    out = []
+    for gname, gen in specs(tier):
+        if gname not in groups:
+            continue
+        got = {}
+        for c in gen():
+            if c.kernel not in kernels or c.kernel not in THREADSAFE:
+                continue
+            if sum(a[1].nbytes for a in c.args if a[0] == "a") > max_bytes:
+                continue
+            L = got.setdefault(c.kernel, [])
+            key = tuple(a[1].tobytes() if a[0] == "a" else repr(a[1]) for a in c.args)
+            if len(L) < per_kernel * 7 and key not in [k for k, _ in L]:
+                L.append((key, c))
+        for k, L in got.items():
+            L = [c for _, c in L][::7][:per_kernel] if len(L) >= per_kernel * 7 else [c for _, c in L][:per_kernel]
+            out += [(L[q], L[q + 1]) for q in range(len(L) - 1)]
+    return out
